@@ -786,6 +786,8 @@ package main
 // C14: request bookkeeping. Every in-flight mark a handler sets is either cleared by the handler itself or travels with
 // the request it forwarded (the receiver clears it): no path leaves a mark behind, which would block the session.
 //@ ghost var inflight map[int]int
+// number of marks cleared so far (only ever grows)
+//@ ghost var doneCalls int
 //@ func (w *boundedWaitGroup) Add(delta int)
 //@   trusted
 //@   modifies inflight[w]
@@ -793,5 +795,17 @@ package main
 //@   ensures delta <= 0 ==> inflight[w] == old(inflight[w])
 //@ func (w *boundedWaitGroup) Done()
 //@   trusted
-//@   modifies inflight[w]
+//@   modifies inflight[w], doneCalls
 //@   ensures inflight[w] == old(inflight[w]) - 1
+//@   ensures doneCalls == old(doneCalls) + 1
+
+// The topic side of the bookkeeping: a client-initiated {leave} that reaches the topic always has its in-flight mark
+// cleared, whatever became of the session's attachment in the meantime; the registration side likewise.
+//@ func (t *Topic) unregisterSession(msg *ClientComMessage)
+//@   requires [C14] t != nil && msg != nil && msg.sess != nil
+//@   modifies *
+//@   ensures [C14] leave_mark_cleared: msg.init && msg.sess.inflightReqs != nil ==> doneCalls > old(doneCalls)
+//@ func (t *Topic) registerSession(msg *ClientComMessage)
+//@   requires [C14] t != nil && msg != nil && msg.sess != nil
+//@   modifies *
+//@   ensures [C14] join_mark_cleared: msg.sess.inflightReqs != nil ==> doneCalls > old(doneCalls)
